@@ -381,6 +381,52 @@ TOL_KNOWN = {False: 1e-5, "tangent_secant": 1e-3, "tangent_tangent": 3e-2, "four
 STATS = None
 
 
+# ------------------------------------------------------------------------------------------- barely overlapping circles
+OVERLAPS = [1e-9, 2e-9, 5e-9, 1e-8, 1e-7, 1e-6]
+UNIT2 = [(3, 4, 5), (4, -3, 5), (1, 0, 1), (0, 1, 1), (5, 12, 13), (-12, 5, 13), (8, 15, 17), (-4, -3, 5)]
+
+
+@st.composite
+def overlap_case(draw, tier="quick"):
+    return {"r1": draw(st.sampled_from([1, 2, 0.5, 3])), "r2": draw(st.sampled_from([1, 2, 0.5, 1.5])), "eps": draw(st.integers(0, len(OVERLAPS) - 1)), "c": [draw(C.ints(3)), draw(C.ints(3))], "u": draw(st.integers(0, len(UNIT2) - 1)),
+            "kind": draw(st.sampled_from(["outer", "inner"])), "swap": draw(st.booleans())}
+
+
+def run_overlap(c):
+    """two circles that overlap by 1e-9 ... 1e-6 only (nearly touching from outside or from inside): they have two real common points,
+    about sqrt(overlap) apart - far more than any tolerance of the library -, and both are among the returned points (at most four)"""
+    r1, r2 = float(c["r1"]), float(c["r2"])
+    if r1 not in (1, 2, 0.5, 3) or r2 not in (1, 2, 0.5, 1.5) or not 0 <= c["eps"] < len(OVERLAPS) or not 0 <= c["u"] < len(UNIT2):
+        raise Skip("malformed")
+    eps = OVERLAPS[c["eps"]]
+    d = (r1 + r2 - eps) if c["kind"] == "outer" else abs(r1 - r2) + eps
+    if d <= 0.1:
+        raise Skip("concentric")
+    u = UNIT2[c["u"]]
+    dv = np.array(u[:2], float) / u[2]
+    w = np.array([-dv[1], dv[0]])
+    c1 = np.array(c["c"], float)
+    c2 = c1 + dv * d
+    a = (d * d + r1 * r1 - r2 * r2) / (2 * d)
+    h2 = r1 * r1 - a * a
+    if h2 <= 0:
+        raise Skip("no real common point")
+    h = math.sqrt(h2)
+    want = [c1 + dv * a + w * h, c1 + dv * a - w * h]
+    A, B = Circle(Point(*c1), r1), Circle(Point(*c2), r2)
+    if c["swap"]:
+        A, B = B, A
+    site = f"barely-overlapping-circles:{c['kind']}:overlap={eps:g}"
+    pts, f = call(site, A.intersect, B)
+    if f:
+        return [f]
+    ck = Checker()
+    ck.check(len(pts) <= 4, site + ":at-most-four-points", len(pts))
+    got = [np.asarray(p.array)[:2] / np.asarray(p.array)[2] for p in pts if abs(np.asarray(p.array)[2]) > 1e-9 * np.max(np.abs(np.asarray(p.array)))]
+    ck.check(all(any(np.linalg.norm(g - e) < 1e-6 for g in got) for e in want), site + ":both-real-common-points-returned", ([np.asarray(g).tolist() for g in got], [e.tolist() for e in want]))
+    return ck.result()
+
+
 LAWS = [
     Law("line_pairs_lattice", None, run_pair, pair_nontrivial, lambda c: [], enumerate=lattice_pairs, enum_shards=4,
         exhaustive=lambda tier: {"name": "all ordered pairs of non-zero non-proportional vectors of {-1,0,1}^3 as line pairs", "size": 26 * 26 - 26 - 26, "exhaustive": True},
@@ -395,6 +441,9 @@ LAWS = [
     Law("conic_conic", lambda tier: cc_case(tier), run_cc, lambda c: c["what"] in ("tangent_secant", "tangent_tangent", "fourfold", "fourfold_exact"), lambda c: [c["what"]] + (["degenerate-receiver"] if c["what"] == "with_degenerate" and c["swap"] else []) + (["operands-reused-with-a-third-conic"] if c.get("n3") is not None and c["what"] != "with_degenerate" else []),
         {"quick": 1500, "thorough": 30000}, "conic.intersect(conic): <= 4 points on both conics, all exactly known common points present (incl. repeated roots)", shard=200,
         mandatory=("fourfold", "fourfold_exact", "tangent_secant", "circles", "degenerate-receiver")),
+    Law("barely_overlapping_circles", lambda tier: overlap_case(tier), run_overlap, lambda c: c["eps"] <= 3, lambda c: [c["kind"], f"overlap={OVERLAPS[c['eps']]:g}"], {"quick": 1500, "thorough": 25000},
+        "two circles overlapping by 1e-9 ... 1e-6 (nearly touching from outside / inside): at most four points, both real common points among them", shard=300,
+        mandatory=("overlap=1e-09", "overlap=2e-09", "inner", "outer")),
 ]
 
 
